@@ -481,9 +481,15 @@ fn run_model_input(ctx: &mut Ctx, r: &mut Rng) {
         None => return,
     };
     let target = gen_target(r, &out.dims);
-    let how = r.below(3);
+    let how = r.below(4);
     let freeze_all = r.chance(1, 4);
-    let desc = format!("model-input|{}|via={}|parameters-frozen={}", spec.describe(), ["reshape", "times-one", "flat-then-reshape"][how], freeze_all);
+    // an evaluation call on a plain handle of the same batch right before (same Model, no update in between): what that
+    // call worked out was worked out for a plain input
+    let prior_eval = r.chance(1, 2);
+    if prior_eval {
+        ctx.count("model_inputs_after_an_evaluation_of_the_same_batch", 1);
+    }
+    let desc = format!("model-input|{}|via={}|parameters-frozen={}|plain-evaluation-first={}", spec.describe(), ["reshape", "times-one", "flat-then-reshape", "tracked-clone-itself"][how], freeze_all, prior_eval);
     ctx.case(&desc, true);
     ctx.sample("model-input", || desc.clone());
     let run = |keep_temporary: bool| {
@@ -499,15 +505,20 @@ fn run_model_input(ctx: &mut Ctx, r: &mut Rng) {
             }
             let costf: CostFunction = if spec.ce { cost::cross_entropy() } else { cost::mse() };
             let opt = GradientDescent::new(0.0);
-            let x = arr_t(&input).tracked();
+            let base = arr_t(&input);
+            let x = base.clone().tracked();
             let n = x.values().len();
             let mk = |x: &Array| match how {
                 0 => x.reshape(x.dimensions().to_vec()),
                 1 => x * (1.0 as Float),
-                _ => x.reshape(vec![n]).reshape(x.dimensions().to_vec()),
+                2 => x.reshape(vec![n]).reshape(x.dimensions().to_vec()),
+                _ => x.clone(),
             };
             let refs: Vec<&mut dyn Layer> = layers.iter_mut().map(|s| s as &mut dyn Layer).collect();
             let mut model = Model::new(refs, &opt, &costf);
+            if prior_eval {
+                let _ = model.forward(base.clone());
+            }
             let kept: Option<Array>;
             let out = if keep_temporary {
                 let v = mk(&x);
